@@ -131,6 +131,7 @@ var (
 	wdEm       *Emitter
 	hangLimit  = 25 * time.Second
 	pendingF   *os.File
+	casesW     *bufio.Writer
 	hangExit   = 3
 	wdDisabled bool
 )
@@ -149,6 +150,9 @@ func watchdog() {
 			if em != nil && em.cur != nil {
 				em.Emit(em.cur.K, J{"in": em.cur.In, "out": J{}, "abn": "hang"})
 				em.w.Flush()
+			}
+			if casesW != nil {
+				casesW.Flush()
 			}
 			os.Exit(hangExit)
 		}
@@ -248,6 +252,26 @@ func main() {
 	}
 }
 
+// runPrelude: ordinary earlier use of the library, the same in every driver process (see prelude.go). Should it
+// not return (nothing in it is judged) the judged calls start anyway after 20 s; should the process die in it,
+// the pending file names the pseudo-case "prelude" and the orchestrator starts over without the prelude, so
+// that the property's own calls decide.
+func runPrelude() {
+	if os.Getenv("VERIF_NO_PRELUDE") != "" {
+		return
+	}
+	setPending(&Case{ID: -1, K: "prelude", In: J{}})
+	done := make(chan struct{})
+	go func() { prelude(); close(done) }()
+	select {
+	case <-done:
+	case <-time.After(20 * time.Second):
+	}
+	if pendingF != nil {
+		pendingF.Truncate(0)
+	}
+}
+
 func readCases(path string, fn func(c *Case)) {
 	f, err := os.Open(path)
 	if err != nil {
@@ -280,6 +304,7 @@ func one(p *Prop, in, out string) {
 		fatalf("%v", err)
 	}
 	pendingF, _ = os.Create(out + ".pending")
+	runPrelude()
 	em := &Emitter{w: bufio.NewWriterSize(f, 1<<20)}
 	readCases(in, func(c *Case) { runCase(p, c, em) })
 	em.w.Flush()
@@ -298,8 +323,10 @@ func record(p *Prop, prop string, seed int64, tier, dir string, shard, of int, c
 		fatalf("%v", err)
 	}
 	pendingF, _ = os.Create(base + ".pending")
+	runPrelude()
 	em := &Emitter{w: bufio.NewWriterSize(tf, 1<<20)}
 	cw := bufio.NewWriterSize(cf, 1<<20)
+	casesW = cw
 	m := &meta{Prop: prop, Kinds: map[string]int{}}
 	seen := map[[8]byte]bool{}
 	accept := func(c *Case) {
